@@ -69,6 +69,7 @@ func runC13(o *opts) (*summary, error) {
 	zone := os.Getenv("TZ")
 	rng := rand.New(rand.NewSource(o.seed))
 	g := &G{r: rng, inDomain: true}
+	thorough := o.tier == "thorough"
 
 	gone, skipped := gapDays()
 	days := map[[3]int]string{}
@@ -90,6 +91,18 @@ func runC13(o *opts) (*summary, error) {
 	}
 	for _, d := range skipped {
 		add(d, "skipped-day")
+	}
+	// ordinary offset changes (clocks forward / back at 02:00, 03:00, ...): the days on which "midnight plus the
+	// clock reading as a duration" differs from the civil time
+	if td := transitionDays(); len(td) > 0 {
+		k := 24
+		if thorough {
+			k = len(td)
+		}
+		for i := 0; i < k && i < len(td); i++ {
+			add(td[len(td)-1-i], "transition-day")
+			add(td[rng.Intn(len(td))], "transition-day")
+		}
 	}
 	for _, d := range [][3]int{{1, 1, 2}, {1, 12, 31}, {9999, 12, 31}, {9999, 1, 1}, {2000, 2, 29}, {1970, 1, 1}, {2038, 1, 19}, {1900, 3, 1}} {
 		add(d, "boundary")
@@ -173,10 +186,15 @@ func runC13(o *opts) (*summary, error) {
 			})
 		}
 		// date-times on that day
-		for k := 0; k < 3; k++ {
+		for k := 0; k < 5; k++ {
 			h, mi, s := rng.Intn(24), rng.Intn(60), rng.Intn(60)
-			if k == 0 {
+			switch k {
+			case 0:
 				h, mi, s = 0, 0, 0
+			case 3:
+				h, mi, s = 23, 59, 59
+			case 4:
+				h, mi, s = 12, 0, 0
 			}
 			cdt := M{"t": "dt", "y": y, "m": m, "d": dd, "h": h, "mi": mi, "s": s}
 			tex := timeExists(y, m, dd, h, mi, s)
